@@ -70,7 +70,7 @@ func init() {
 			if rng.Intn(25) == 0 {
 				mx, mn = mn, mx // max < min: error in the exported functions
 			}
-			switch rng.Intn(6) {
+			switch rng.Intn(8) {
 			case 0: // calcBitIndex: altitude inside, on borders, outside (clamped)
 				z := int64(rng.Intn(36))
 				var alt float64
@@ -151,6 +151,15 @@ func init() {
 				}
 				idl := maybeCorrupt(ids(l), 0.03)
 				do("e2qvh", join(idl), s(zoomNear(h, 1, 1)+int64(boolToInt(h <= 1))), s(oz), fbits(mx), fbits(mn), fl(mx), fl(mn))
+			case 5: // vertical indices beyond 32 bits: a tall range, fine output zoom
+				vz := int64(24 + rng.Intn(3))
+				hi := float64(int64(1) << 25)
+				vi := pow2(vz) - 1 - rng.Int63n(pow2(vz)/8)
+				if rng.Intn(2) == 0 {
+					do("b2v", s(vz), s(vi), "35", fbits(hi), fbits(0))
+				} else {
+					do("qv2exth", fmt.Sprintf("%d:%d:%d:%d", 3, rng.Int63n(64), vz, vi), "3", "35", fbits(hi), fbits(0))
+				}
 			default: // exported: (quadkey, bit ID) → extended IDs
 				qz := int64(1 + rng.Intn(20))
 				vz := int64(rng.Intn(14))
